@@ -74,6 +74,7 @@ def run(repo, rep):
     from . import c14
 
     rep.run_borrowed(c14, {"C14-a": "C05-i"}, repo, only_sites=("hillclimb_allocation", "greedy_allocation", "tensor_allocation", "live_range"))
+    rule_round10(repo, rep)
     rule_round9(repo, rep)
     rule_round5(repo, rep)
     rep.clause("C05-g", "HillClimb: a trial that may stop early re-initialises, for every range, each per-trial field the permutation step reads off ranges it did not reach")
@@ -644,3 +645,124 @@ def rule_round9(repo, rep):
               "AssertionError 'Two different addresses cannot be assigned to the same tensor' with --tensor-allocator LinearAlloc")
     rep.check(both, "C05-i", site, "the running total is moved to the aligned address before `address == total_sz` decides whether the space is fresh",
               f"`{norm(rounds[0])}`: after an alignment gap the freshness test is false, total_sz is not advanced past the range and the following ranges are laid out over it (addresses [0, 64, 16, 128] for sizes 16, 100, ..)")
+
+
+# ------------------------------------------------------------------ round 10
+
+
+def _bell_partitions(items):
+    """all set partitions of a short list, as lists of classes"""
+    if not items:
+        yield []
+        return
+    head, rest = items[0], items[1:]
+    for part in _bell_partitions(rest):
+        for i in range(len(part)):
+            yield part[:i] + [[head] + part[i]] + part[i + 1:]
+        yield [[head]] + part
+
+
+def rule_round10(repo, rep):
+    """(j) HillClimb's turn order `indices` stays a permutation of the live ranges: every store into it is a parallel assignment among its
+    own elements whose effect, simulated for every aliasing pattern of the index expressions (two drawn positions may coincide), leaves the
+    multiset of elements unchanged, or a whole-list permutation (shuffle / sort / reverse).
+    (k) Greedy's `current_allocs` is sorted by address whenever alloc() scans it for gaps: its writers are the empty list, a sort, an
+    order-preserving filter of itself, or an append that is followed by a sort in the same function.
+    (l) the linear allocator decides on what this call has placed: `.address` is read only off members of the call's own visited list."""
+    rep.clause("C05-j", "HillClimb: every store into the turn order keeps it a permutation (parallel assignments simulated over all aliasing patterns of their index expressions)")
+    hm = repo.mod("hillclimb_allocation")
+    n = 0
+    for q, fn in hm.functions.items():
+        if not q.startswith("HillClimbAllocator."):
+            continue
+        site = f"ethosu/vela/hillclimb_allocation.py:{q}"
+        for st in ast.walk(fn):
+            tgts = []
+            if isinstance(st, ast.Assign):
+                for t in st.targets:
+                    tgts += list(t.elts) if isinstance(t, (ast.Tuple, ast.List)) else [t]
+            elif isinstance(st, (ast.AugAssign, ast.AnnAssign)):
+                tgts = [st.target]
+            elif isinstance(st, ast.Delete):
+                tgts = list(st.targets)
+            hit = [t for t in tgts if isinstance(t, ast.Subscript) and str(norm(t.value)) == "indices"]
+            if hit:
+                n += 1
+                ok, why = False, "not a parallel assignment among elements of `indices`"
+                if isinstance(st, ast.Assign) and len(st.targets) == 1:
+                    t0 = st.targets[0]
+                    ts = list(t0.elts) if isinstance(t0, (ast.Tuple, ast.List)) else [t0]
+                    vs = list(st.value.elts) if isinstance(st.value, (ast.Tuple, ast.List)) else [st.value]
+                    if len(ts) == len(vs) and all(isinstance(x, ast.Subscript) and str(norm(x.value)) == "indices" for x in ts + vs):
+                        ti = [str(norm(x.slice)) for x in ts]
+                        vi = [str(norm(x.slice)) for x in vs]
+                        syms = sorted(set(ti + vi))
+                        ok, why = True, ""
+                        for part in _bell_partitions(syms):
+                            pos = {s: k for k, cls in enumerate(part) for s in cls}
+                            a = list(range(100, 100 + len(part)))
+                            vals = [a[pos[s]] for s in vi]
+                            for s, v in zip(ti, vals):
+                                a[pos[s]] = v
+                            if sorted(a) != list(range(100, 100 + len(part))):
+                                eq = ", ".join(" == ".join(cls) for cls in part if len(cls) > 1) or "all positions distinct"
+                                ok, why = False, f"with {eq} the assignment drops an element and duplicates another: a live range is never allocated (address -1 in the result)"
+                                break
+                rep.check(ok, "C05-j", site, f"`{str(norm(st))[:100]}` permutes elements of the turn order", why)
+            if isinstance(st, ast.Expr) and isinstance(st.value, ast.Call) and isinstance(st.value.func, ast.Attribute) and str(norm(st.value.func.value)) == "indices":
+                n += 1
+                rep.check(st.value.func.attr in ("sort", "reverse"), "C05-j", site, f"`{str(norm(st))[:80]}` permutes the turn order", f"`{st.value.func.attr}` changes the set of elements")
+    if n < 1:
+        raise AnalysisError("HillClimbAllocator: no store into `indices` found")
+
+    rep.clause("C05-k", "Greedy: the list of current allocations is sorted by address whenever alloc() scans it for gaps (writers: empty list, sort, order-preserving filter, append followed by a sort)")
+    gm = repo.mod("greedy_allocation")
+    n = 0
+    for q, fn in gm.functions.items():
+        if not q.startswith("GreedyAllocator."):
+            continue
+        site = f"ethosu/vela/greedy_allocation.py:{q}"
+        body_stmts = [s for s in ast.walk(fn) if isinstance(s, ast.stmt)]
+        for st in body_stmts:
+            txt = str(norm(st))
+            if isinstance(st, ast.Assign) and any(str(norm(t)) == "self.current_allocs" for t in st.targets):
+                n += 1
+                v = st.value
+                vt = str(norm(v))
+                ok = vt in ("[]", "list()") or vt.startswith(("sorted(", "list(sorted("))
+                if isinstance(v, ast.ListComp) and len(v.generators) == 1 and str(norm(v.generators[0].iter)) == "self.current_allocs" and str(norm(v.elt)).strip("()") == str(norm(v.generators[0].target)).strip("()"):
+                    ok = True
+                rep.check(ok, "C05-k", site, f"`{txt[:90]}` keeps the allocations sorted by address", "neither empty, nor a sort, nor an order-preserving filter of the list itself")
+            elif isinstance(st, (ast.Assign, ast.AugAssign, ast.Delete)) and any(
+                    isinstance(t, ast.Subscript) and str(norm(t.value)) == "self.current_allocs" for t in (st.targets if not isinstance(st, ast.AugAssign) else [st.target])):
+                n += 1
+                rep.check(isinstance(st, ast.Delete), "C05-k", site, f"`{txt[:90]}` keeps the allocations sorted by address",
+                          "an element is overwritten in place: alloc() walks the list assuming ascending addresses and takes the space below an entry that is out of order for a gap (two live ranges overlap)")
+            elif isinstance(st, ast.Expr) and isinstance(st.value, ast.Call) and isinstance(st.value.func, ast.Attribute) and str(norm(st.value.func.value)) == "self.current_allocs":
+                m_ = st.value.func.attr
+                n += 1
+                if m_ in ("append", "extend", "insert"):
+                    later = [s for s in body_stmts if s.lineno > st.lineno and isinstance(s, (ast.Assign, ast.Expr)) and ("sorted(self.current_allocs" in str(norm(s)) or str(norm(s)) == "self.current_allocs.sort()")]
+                    rep.check(bool(later), "C05-k", site, f"`{txt[:80]}` is followed by a sort of the list", "no sort follows in the same function")
+                else:
+                    rep.check(m_ in ("sort", "pop", "remove", "clear"), "C05-k", site, f"`{txt[:80]}` keeps the order", f"`{m_}` is not order preserving")
+    if n < 4:
+        raise AnalysisError(f"GreedyAllocator: {n} writers of current_allocs found")
+
+    rep.clause("C05-l", "the linear allocator decides on what this call has placed: `.address` is read only off members of the call's own visited list, never off tensor state left by an earlier run")
+    tm = repo.mod("tensor_allocation")
+    fn = tm.func("linear_allocate_live_ranges")
+    if fn is None:
+        raise AnalysisError("linear_allocate_live_ranges not found")
+    fresh = {st.targets[0].id for st in ast.walk(fn) if isinstance(st, ast.Assign) and isinstance(st.targets[0], ast.Name) and str(norm(st.value)) in ("[]", "list()", "set()")}
+    members = {s.target.id for s in ast.walk(fn) if isinstance(s, ast.For) and isinstance(s.target, ast.Name) and isinstance(s.iter, ast.Name) and s.iter.id in fresh}
+    n = 0
+    for a in ast.walk(fn):
+        if isinstance(a, ast.Attribute) and a.attr == "address" and isinstance(a.ctx, ast.Load):
+            n += 1
+            base = str(norm(a.value))
+            rep.check(base in members, "C05-l", "ethosu/vela/tensor_allocation.py:linear_allocate_live_ranges", f"`{base}.address` is read off a member of the visited list of this call",
+                      f"`{base}` is not drawn from {sorted(fresh)}: an address left on a tensor by an earlier allocation run decides what this run does (a tensor placed earlier is skipped without "
+                      "advancing the running total: later ranges are laid out from 0 over it and the reported total falls short)")
+    if n < 2:
+        raise AnalysisError(f"linear_allocate_live_ranges: {n} address reads found")
